@@ -333,6 +333,8 @@ func (r *RolloutReconciler) handleNormalRolling(c *RolloutContext) error {
 	}
 	// in case user modifies it with inappropriate value
 	util.CheckNextBatchIndexWithCorrect(c.Rollout)
+	// the release manager works on c.NewStatus (a copy of rollout.Status): carry the correction over
+	c.NewStatus.GetSubStatus().NextStepIndex = c.Rollout.Status.GetSubStatus().NextStepIndex
 
 	releaseManager, err := r.getReleaseManager(c.Rollout)
 	if err != nil {
